@@ -729,25 +729,36 @@ harness! {
     }
 }
 
+// The panic side formats its message with const_panic (nested byte loops over a 1024-byte buffer);
+// with symbolic operands the message length is symbolic and symbolic execution does not finish
+// (> 15 min), and `const_panic::concat_panic` cannot be stubbed from here (its argument type
+// `const_panic::PanicVal` is not nameable: const_panic is not a dependency of this crate).
+// So the panic side runs on concrete operand pairs selected by one symbolic value; the decision
+// itself (`const_eq` of the operands) is covered on the full domain by the harnesses above.
+
 harness! {
-    /// kind=complete tier=quick bound="none: u8 operands over the full domain with l != r; assertc_eq! must panic" expect_fail="in const_panic::"
+    /// kind=bounded tier=quick bound="4 concrete unequal operand pairs (u8 0/1, u8 255/0, bool true/false, u8 7/200) selected symbolically; assertc_eq! must panic on each" expect_fail="in const_panic::"
     #[kani::unwind(45)]
     fn c16_assertc_eq_panics(s) {
-        let l = s.u8();
-        let r = s.u8();
-        s.assume(l != r);
-        must_panic!(s, "C16.assertc_eq.must_panic_when_ne", assertc_eq!(l, r));
+        match s.upto(3) {
+            0 => must_panic!(s, "C16.assertc_eq.must_panic_when_ne", assertc_eq!(0u8, 1u8)),
+            1 => must_panic!(s, "C16.assertc_eq.must_panic_when_ne", assertc_eq!(255u8, 0u8)),
+            2 => must_panic!(s, "C16.assertc_eq.must_panic_when_ne", assertc_eq!(true, false)),
+            _ => must_panic!(s, "C16.assertc_eq.must_panic_when_ne", assertc_eq!(7u8, 200u8)),
+        }
     }
 }
 
 harness! {
-    /// kind=complete tier=quick bound="none: u8 operands over the full domain with l == r; assertc_ne! must panic" expect_fail="in const_panic::"
+    /// kind=bounded tier=quick bound="4 concrete equal operand pairs (u8 0, u8 255, bool false, u8 42) selected symbolically; assertc_ne! must panic on each" expect_fail="in const_panic::"
     #[kani::unwind(45)]
     fn c16_assertc_ne_panics(s) {
-        let l = s.u8();
-        let r = s.u8();
-        s.assume(l == r);
-        must_panic!(s, "C16.assertc_ne.must_panic_when_eq", assertc_ne!(l, r));
+        match s.upto(3) {
+            0 => must_panic!(s, "C16.assertc_ne.must_panic_when_eq", assertc_ne!(0u8, 0u8)),
+            1 => must_panic!(s, "C16.assertc_ne.must_panic_when_eq", assertc_ne!(255u8, 255u8)),
+            2 => must_panic!(s, "C16.assertc_ne.must_panic_when_eq", assertc_ne!(false, false)),
+            _ => must_panic!(s, "C16.assertc_ne.must_panic_when_eq", assertc_ne!(42u8, 42u8)),
+        }
     }
 }
 
